@@ -226,7 +226,8 @@ Refundable(c, s, h) == {a \in DOMAIN s.bal : s.idx[a] /\ s.reg[a] = "was" /\ s.d
 \* (reward block only) term reward issue, then deposit refunds out of the pool; LAST every account's net balance
 \* change of the whole block - fees, transfers, reward, refund - moves the votes of the candidate it votes for at the
 \* end of the block.  Two mutants (not known defects: negative controls of the design runs): Mut_VotePassBeforeRefund
-\* lets the vote pass run before the refunds, Mut_RefundNotFromPool pays the refunds without debiting the pool.
+\* lets the vote pass run before the refunds, Mut_RefundNotFromPool pays the refunds without debiting the pool,
+\* Mut_ZeroStartSkipped leaves out the accounts that owned nothing when the block started ("created in this block").
 Finalize(c, dv, b) ==
   LET s1  == [b.s EXCEPT !.bal[c.income] = @ + b.fees, !.h = b.h]
       rwb == IsReward(b.s, b.h)
@@ -239,6 +240,7 @@ Finalize(c, dv, b) ==
                         !.dep = [a \in DOMAIN s2.dep |-> IF a \in R THEN 0 ELSE s2.dep[a]]]
       sv  == IF "Mut_VotePassBeforeRefund" \in dv THEN s2 ELSE s3
       dl  == [a \in DOMAIN sv.bal |-> IF sv.vf[a] # NONE /\ sv.reg[sv.vf[a]] = "yes"
+                                          /\ ~("Mut_ZeroStartSkipped" \in dv /\ b.start[a] = 0)
                                        THEN W(c, sv.bal[a]) - W(c, b.start[a]) ELSE 0]
   IN [b EXCEPT !.s = [s3 EXCEPT !.votes = [x \in DOMAIN s3.votes |->
                                             s3.votes[x] + SumOver(dl, {a \in DOMAIN s3.bal : s3.vf[a] = x})],
